@@ -125,6 +125,9 @@ pub struct FuncDef {
     /// takes one u32 parameter
     #[serde(default, skip_serializing_if = "is_false")]
     pub param: bool,
+    /// takes one `ptr<function, u32>` parameter (instead of the value parameter)
+    #[serde(default, skip_serializing_if = "is_false")]
+    pub ptr: bool,
     #[serde(default)]
     pub body: Vec<Node>,
 }
